@@ -452,6 +452,68 @@ class C02:
         return n
 
 
+def check_own_list_uniqueness(ctx: Ctx, c):
+    """R02.7: "identifiers are unique within their list".  The lists of the sub-adapters' stores (`<adapter>.values()`) are unique by
+    construction (one entry per key).  A collection's OWN list written as `[adapter.to_aoef(o) for o in obj.<field>]` repeats an
+    entry for every repeated element of obj.<field> (the data models accept `Dataset(recordings=[r, r])`)."""
+    for col in c.ao.collections:
+        ci = col.ci
+        if "to_aoef" not in ci.methods:
+            continue
+        try:
+            s = ctx.summ.of_func(ci.module.name, f"{ci.name}.to_aoef")
+        except Exception:  # noqa: BLE001
+            continue
+        objp = ("param", s.params[1]) if len(s.params) > 1 else None
+        for r in s.returns:
+            t = r.term
+            if t[0] != "call" or t[1][0] != "global":
+                continue
+            for k, v in t[3]:
+                if v[0] == "comp" and v[1] == "list" and len(v[3]) == 1 and v[3][0][1][0] == "attr" and v[3][0][1][1] == objp and not v[3][0][2] \
+                        and v[2][0] == "call" and v[2][1][0] == "attr" and v[2][1][2] == "to_aoef":
+                    fld = v[3][0][1][2]
+                    ctx.bad("R02.7", ci.module.relpath, f"{ci.name}.to_aoef", f"{k}=[<adapter>.to_aoef(o) for o in obj.{fld}]",
+                            f"the top-level list `{k}` of the document is the collection's own list converted element by element: an object "
+                            f"that occurs twice in obj.{fld} (the data models accept it) is written twice with the same identifier, so "
+                            f"identifiers are not unique within the list (the sub-adapter's values() would list it once)", r.lineno,
+                            witness={"input": f"{ci.name.replace('Adapter', '')}({fld}=[x, x])", "observed": "two entries with the same uuid"})
+                elif v[0] == "call" and v[1][0] == "attr" and v[1][2] == "values":
+                    ctx.ok("R02.7", f"{ci.module.relpath}:{r.lineno} {ci.name}.to_aoef", f"{k} = <adapter>.values() (one entry per identifier)")
+
+
+def check_own_list_kept(ctx: Ctx, c, rule="R01.9"):
+    """(for C01) The converse: a list that IS a declared list field of the collection (Evaluation.clip_evaluations) must be written
+    element by element; written as `<adapter>.values()` -- one entry per identifier -- a repeated element is written once and the
+    loaded list is shorter than the saved one."""
+    m = ctx.models
+    for col in c.ao.collections:
+        ci = col.ci
+        if "to_aoef" not in ci.methods or col.D is None:
+            continue
+        try:
+            s = ctx.summ.of_func(ci.module.name, f"{ci.name}.to_aoef")
+        except Exception:  # noqa: BLE001
+            continue
+        dfields = {f.name: f for f in m.fields(col.D)}
+        for r in s.returns:
+            t = r.term
+            if t[0] != "call" or t[1][0] != "global":
+                continue
+            for k, v in t[3]:
+                f = dfields.get(k)
+                if f is None or f.shape[0] != "list":
+                    continue
+                if v[0] == "call" and v[1][0] == "attr" and v[1][2] == "values":
+                    ctx.bad(rule, ci.module.relpath, f"{ci.name}.to_aoef", f"{k}=<adapter>.values() for the declared list field {col.D.name}.{k}",
+                            f"`{k}` is a declared list of {col.D.name}, but the document gets the sub-adapter's values() -- one entry per "
+                            f"identifier: an element that occurs twice in obj.{k} is written once, so the loaded list is shorter than the "
+                            f"saved one ([A, B, A] comes back as [A, B]); every other collection writes its own list element by element",
+                            r.lineno, witness={"input": f"{col.D.name}({k}=[A, B, A])", "loaded": "[A, B]"})
+                else:
+                    ctx.ok(rule, f"{ci.module.relpath}:{r.lineno} {ci.name}.to_aoef", f"{k} written from obj.{k} element by element")
+
+
 def run(ctx: Ctx, who_may_write=True):
     ctx.rule("R02.1", "no conversion can write a store after it was snapshot (evaluation order)", 50)
     ctx.rule("R02.2", "reference keywords derive from the owning adapter's to_aoef with matching data class", 30)
@@ -472,4 +534,6 @@ def run(ctx: Ctx, who_may_write=True):
     c.check_allocation()
     if who_may_write:
         c.check_who_may_write()
+        ctx.rule("R02.7", "identifiers unique within each top-level list: own lists are not written element by element", 20)
+        check_own_list_uniqueness(ctx, c)
     return EXPLANATION, ASSUMPTIONS
